@@ -614,6 +614,11 @@ func describeLin(lin []simkit.LinOp, key string) string {
 			case !tombDone:
 				// the diagnosis stays with the last acknowledged mutation; once a tombstone was
 				// acknowledged, with that tombstone (later acknowledged calls change nothing)
+				if k == "put" && out.bad == "a shard was not read-write during it" && strings.Contains(lastMut, "stored without metadata") {
+					// (a put that merely met a read-only shard does not repair an earlier put that a
+					// degraded shard acknowledged without indexing it: that one stays the root)
+					break
+				}
 				lastMut = ""
 				if out.bad != "" {
 					lastMut = "the acknowledged " + k + ": " + out.bad
